@@ -10,6 +10,8 @@ import (
 	"encoding/binary"
 	"fmt"
 	"io"
+	"os"
+	"path/filepath"
 	"sort"
 	"strconv"
 	"strings"
@@ -18,6 +20,8 @@ import (
 	"time"
 
 	"github.com/jhalter/mobius/hotline"
+	"github.com/jhalter/mobius/internal/mobius"
+	"gopkg.in/yaml.v3"
 )
 
 var hsReplyBytes = []byte{0x54, 0x52, 0x54, 0x50, 0, 0, 0, 0}
@@ -42,6 +46,8 @@ type scriptConn struct {
 	closed     bool
 	writes     [][]byte
 	reads      int
+	failAfter  int      // >= 0: every Write once this many bytes were accepted fails (peer gone)
+	attempts   [][]byte // every Write call, failed ones included
 	gatePassed bool
 	afterEOF   bool
 }
@@ -49,7 +55,7 @@ type scriptConn struct {
 func newScriptConn(data []byte, cuts []int) *scriptConn {
 	cs := append([]int{}, cuts...)
 	sort.Ints(cs)
-	return &scriptConn{data: data, cuts: cs, gateOff: -1}
+	return &scriptConn{data: data, cuts: cs, gateOff: -1, failAfter: -1}
 }
 
 func (s *scriptConn) Read(p []byte) (int, error) {
@@ -107,9 +113,30 @@ func (s *scriptConn) Read(p []byte) (int, error) {
 
 func (s *scriptConn) Write(p []byte) (int, error) {
 	s.mu.Lock()
+	defer s.mu.Unlock()
+	s.attempts = append(s.attempts, append([]byte{}, p...))
+	if s.failAfter >= 0 {
+		n := 0
+		for _, w := range s.writes {
+			n += len(w)
+		}
+		if n >= s.failAfter {
+			return 0, io.ErrClosedPipe
+		}
+	}
 	s.writes = append(s.writes, append([]byte{}, p...))
-	s.mu.Unlock()
 	return len(p), nil
+}
+
+// Attempted returns everything the server tried to write, failed writes included.
+func (s *scriptConn) Attempted() []byte {
+	s.mu.Lock()
+	defer s.mu.Unlock()
+	var b []byte
+	for _, w := range s.attempts {
+		b = append(b, w...)
+	}
+	return b
 }
 
 func (s *scriptConn) Close() error {
@@ -243,6 +270,10 @@ type sessAcct struct {
 	Name   string
 	PwWire []byte
 	Access hotline.AccessBitmap
+	// RawHash != nil: the account file is written by the harness with this literal Password value,
+	// which is NOT a well-formed bcrypt hash (empty, plaintext, truncated, unknown version / cost):
+	// no password may ever be accepted for it.
+	RawHash *string
 }
 
 // spec: AcctSpec.Password is the plaintext; the fixture stores bcrypt(EncodeString(plaintext)) = bcrypt(PwWire).
@@ -253,9 +284,51 @@ func (a sessAcct) spec() AcctSpec {
 func acctSpecs(as []sessAcct) []AcctSpec {
 	out := []AcctSpec{}
 	for _, a := range as {
+		if a.RawHash != nil {
+			continue
+		}
 		out = append(out, a.spec())
 	}
 	return out
+}
+
+// installRawAccounts writes the account files of the RawHash accounts by hand and restarts the
+// account manager on the directory (as after a server restart with operator-edited files).
+func installRawAccounts(ts *TS, as []sessAcct) error {
+	any := false
+	for _, a := range as {
+		if a.RawHash == nil {
+			continue
+		}
+		any = true
+		acc := hotline.Account{Login: a.Login, Name: a.Name, Password: *a.RawHash, Access: a.Access}
+		b, err := yaml.Marshal(acc)
+		if err != nil {
+			return err
+		}
+		if err := os.WriteFile(filepath.Join(ts.Users, a.Login+".yaml"), b, 0644); err != nil {
+			return err
+		}
+	}
+	if !any {
+		return nil
+	}
+	am, err := mobius.NewYAMLAccountManager(ts.Users)
+	if err != nil {
+		return err
+	}
+	ts.Acct = am
+	ts.Srv.AccountManager = am
+	return nil
+}
+
+// modelHash renders the stored hash for the oracle: tag 1 + password bytes for a well-formed
+// bcrypt hash of those bytes, tag 0 + the literal value for something that is not a bcrypt hash.
+func (a sessAcct) modelHash() []byte {
+	if a.RawHash != nil {
+		return append([]byte{0}, []byte(*a.RawHash)...)
+	}
+	return append([]byte{1}, a.PwWire...)
 }
 
 // wirePassword draws 1..max password bytes as sent on the wire, none of them zero (a NUL inside a
@@ -298,7 +371,7 @@ func askSession(c *Case, op string, addr string, nowNs int64, noticeID uint32, a
 	var sb strings.Builder
 	fmt.Fprintf(&sb, "%s %s %d %d %d", op, hx([]byte(addr)), nowNs, noticeID, len(accts))
 	for _, a := range accts {
-		fmt.Fprintf(&sb, " %s %s", hx([]byte(a.Login)), hx(a.PwWire))
+		fmt.Fprintf(&sb, " %s %s", hx([]byte(a.Login)), hx(a.modelHash()))
 	}
 	fmt.Fprintf(&sb, " %d", len(bans))
 	for _, b := range bans {
